@@ -11,6 +11,7 @@ Spec C16: "a scenario means the same whether written in HCL or in YAML".
 Core Lean only.
 -/
 import Pandora.Model.C16
+import Pandora.Model.C16Locals
 
 namespace Pandora.Spec.C16
 open Pandora.Go Pandora.Model.C16
@@ -37,6 +38,19 @@ def verdict (obs : String) : String :=
     | _, _, _ => "fail:driver:unreadable observation"
 
 def holds (obs : String) : Bool := verdict obs == "ok"
+
+/-- the observation of an HCL file that the language does NOT evaluate (a `locals` block or an expression with an
+undefined local, an unknown function, a call that fails — used by the body or not): conveniences are "fully evaluated
+before conversion", so the HCL front-end must refuse the file as a whole -/
+def verdictRefuse (obs : String) : String :=
+  if "PANIC".toList.isPrefixOf obs.toList then "fail:panic:" ++ obs
+  else if "HANG".toList.isPrefixOf obs.toList then "fail:hang:" ++ obs
+  else
+    match token obs "H" with
+    | some h =>
+      if h == "ERR" then "ok"
+      else "fail:half-evaluated:the HCL file has a local or an expression that does not evaluate, yet the file is accepted"
+    | none => "fail:driver:unreadable observation"
 
 /-- one documented field: HCL struct, name in HCL, how it is written, may be left out, key in YAML -/
 structure DocField where
@@ -121,5 +135,38 @@ def docFunctions : List (String × String) := [
   ("index", "IndexFunc"), ("keys", "KeysFunc"), ("lookup", "LookupFunc"), ("merge", "MergeFunc"),
   ("reverse", "ReverseListFunc"), ("slice", "SliceFunc"), ("sort", "SortFunc"), ("split", "SplitFunc"),
   ("values", "ValuesFunc"), ("zipmap", "ZipmapFunc")]
+
+/-- for every registered function: argument lists on which it is told apart from every other registered function
+(a slip in the table of `buildHclContext` — a name bound to a neighbour's implementation — changes the value of at
+least one of these calls, or makes it fail).  `harness/cmd/c16` spells every one of them in a scenario file
+(`enumFunctions`).  One pair cannot be told apart on tuples: wherever `index` is defined `element` gives the same
+member (`element` additionally wraps around); the harness tells them apart on a map (`index(zipmap(…, split(…)), key)`),
+which the model does not evaluate. -/
+def fnWitnesses : List (String × List (List V)) :=
+  let a := V.str "a"; let b := V.str "b"; let c := V.str "c"; let d := V.str "d"; let e := V.str ""
+  let l := V.seq [b, e, a, b]
+  let m := V.map [("b", .str "1"), ("a", .str "2")]
+  [ ("CoalesceFunc", [[a, b], [.null, b]]),
+    ("CoalesceListFunc", [[.seq [], .seq [a, b]], [.seq [a], .seq [b]]]),
+    ("CompactFunc", [[l]]),
+    ("ConcatFunc", [[.seq [a], .seq [b, a]]]),
+    ("DistinctFunc", [[l]]),
+    ("ElementFunc", [[.seq [a, b, c], .int 4]]),
+    ("FlattenFunc", [[.seq [.seq [a], .seq [.seq [b], a]]]]),
+    ("IndexFunc", [[.seq [a, b], .int 1]]),
+    ("KeysFunc", [[m]]),
+    ("LookupFunc", [[.map [("a", .str "x")], a, d], [.map [("a", .str "x")], b, d]]),
+    ("MergeFunc", [[.map [("a", .str "1"), ("b", .str "2")], .map [("b", .str "3"), ("c", .str "4")]]]),
+    ("ReverseListFunc", [[l]]),
+    ("SliceFunc", [[.seq [a, b, c, d], .int 1, .int 3]]),
+    ("SortFunc", [[l]]),
+    ("SplitFunc", [[.str ",", .str "a,b,,c"]]),
+    ("ValuesFunc", [[m]]),
+    ("ZipmapFunc", [[.seq [a, b], .seq [.str "1", .str "2"]]]) ]
+
+def witnessesOf (sym : String) : List (List V) :=
+  match fnWitnesses.find? (fun p => p.1 == sym) with
+  | some p => p.2
+  | none => []
 
 end Pandora.Spec.C16
